@@ -15,6 +15,7 @@ for n in range(1, 21):
     for o in m.OBLIGATIONS:
         t = o.get('tier', 'quick')
         names.append(o['id'] + (' (T)' if t == 'thorough' else ''))
+    names += [o['id'] + ' (SMT from source)' for o in getattr(m, 'SMT_OBLIGATIONS', [])]
     lem = [x['id'] if isinstance(x, dict) else str(x) for x in getattr(m, 'LEMMAS', [])]
     rows.append('| %s | %s%s |' % (pid, ', '.join(names), ('; lemmas: ' + ', '.join(lem)) if lem else ''))
 table = '\n'.join(['| property | obligations (quick tier unless marked T) |', '|----------|------------------------------------------|'] + rows)
